@@ -55,9 +55,9 @@ func VP_C09_RestoreStaged() {
 	// committed files
 	files := vpWorkFiles(1+zzvp.Choose(zzvp.Param("files", 2)), depth, maxc, 1)
 	for _, f := range files {
-		zzvp.Assume(zzvp.Run("add", f.path).Exit == 0)
+		vpOK(zzvp.Run("add", f.path))
 	}
-	zzvp.Assume(zzvp.Run("commit", "-m", "base").Exit == 0)
+	vpOK(zzvp.Run("commit", "-m", "base"))
 	head, _ := vpReadIndex()
 	// staged changes: edit+add, rm, or nothing; plus optionally a newly added file
 	for i, f := range files {
@@ -66,9 +66,9 @@ func VP_C09_RestoreStaged() {
 			nc := zzvp.Bytes("e"+string(rune('0'+i)), 1, "")
 			zzvp.Assume(string(nc) != string(f.content))
 			zzvp.WriteFile(w+"/"+f.path, nc)
-			zzvp.Assume(zzvp.Run("add", f.path).Exit == 0)
+			vpOK(zzvp.Run("add", f.path))
 		case 2:
-			zzvp.Assume(zzvp.Run("rm", f.path).Exit == 0)
+			vpOK(zzvp.Run("rm", f.path))
 		}
 	}
 	if zzvp.Choose(2) == 1 {
@@ -77,7 +77,7 @@ func VP_C09_RestoreStaged() {
 			zzvp.Assume(np != f.path && !vpHasDirPrefix(np, f.path) && !vpHasDirPrefix(f.path, np))
 		}
 		zzvp.WriteFile(w+"/"+np, []byte("N"))
-		zzvp.Assume(zzvp.Run("add", np).Exit == 0)
+		vpOK(zzvp.Run("add", np))
 	}
 	arg := vpArg("arg", depth, maxc)
 	idxBefore, _ := vpReadIndex()
